@@ -225,3 +225,25 @@ pub fn panic_count() -> usize {
     let g = sim.lock();
     g.panics.len()
 }
+
+/// Copy of the trace events with sequence number >= `from` (harness-side, in-run oracles).
+pub fn events_since(from: u64) -> Vec<crate::sim::Ev> {
+    let (sim, _) = ctx();
+    let g = sim.lock();
+    let start = g.trace.partition_point(|e| e.seq < from);
+    g.trace[start..].to_vec()
+}
+
+/// Payload and addressing of a datagram (as sent, or a delivered copy).
+pub fn dgram(id: u32) -> Option<crate::sim::Dgram> {
+    let (sim, _) = ctx();
+    let g = sim.lock();
+    g.dgrams.get(id as usize).cloned()
+}
+
+/// Has any send on this node failed because the simulator injected a syscall error?
+pub fn stats() -> crate::sim::Stats {
+    let (sim, _) = ctx();
+    let g = sim.lock();
+    g.stats.clone()
+}
